@@ -238,6 +238,53 @@ fn built_operands() -> (u64, Vec<Violation>) {
     (n, out)
 }
 
+/// Equality is by content at every nesting depth: for depths 1..=40 and every container kind
+/// (array, tuple, struct, the three alternating), two values of equal content built separately
+/// are equal, and two that differ only at the innermost position are not - written as one
+/// program (folded), and with the innermost value passed at run time; `==`, `!=` and a match
+/// value arm.
+fn depth_ladder() -> (u64, Vec<Violation>) {
+    let wrap = |kind: usize, level: usize, inner: String| -> String {
+        match (kind + if kind == 3 { level } else { 0 }) % 3 {
+            0 => format!("[{inner}]"),
+            1 => format!("({inner}, 0)"),
+            _ => format!("struct{{ a := {inner} }}"),
+        }
+    };
+    let nest = |kind: usize, depth: usize, core: &str| -> String {
+        let mut t = core.to_string();
+        for level in 0..depth {
+            t = wrap(kind, level, t);
+        }
+        t
+    };
+    let mut n = 0u64;
+    let mut out = Vec::new();
+    for kind in 0..4usize {
+        for depth in 1..=40usize {
+            for (route, mk) in [("literal", false), ("run-time core", true)] {
+                let (pre, c1, c2) = if mk { ("k := mut 1; one := *k; k += 1; two := *k; ", "one", "two") } else { ("", "1", "2") };
+                let a = nest(kind, depth, c1);
+                let b = nest(kind, depth, c2);
+                let text = format!("{pre}x := {a}; y := {a}; z := {b}; m1 := match x {{ (y) => 1, => 0, }}; m2 := match x {{ (z) => 1, => 0, }}; (x == y, x != y, x == z, x != z, m1, m2)");
+                n += 6;
+                let o = core::run_text(&text, true, core::QUICK_FUEL);
+                let got = match &o {
+                    core::Outcome::Value(v) => crate::val::canon(v),
+                    other => other.tag(),
+                };
+                if got != "(true, false, false, true, 1, 0)" {
+                    out.push(Violation {
+                        sig: format!("C19|equality-at-depth|kind={}|{route}|depth={depth}", ["array", "tuple", "struct", "alternating"][kind]),
+                        detail: json!({"kind": "program", "stdlib": true, "text": text, "expected": "(true, false, false, true, 1, 0)", "observed": got}),
+                    });
+                }
+            }
+        }
+    }
+    (n, out)
+}
+
 pub fn run(tier: &str) -> i32 {
     let thorough = tier == "thorough";
     let mut report = Report::new("C19", tier);
@@ -430,6 +477,9 @@ pub fn run(tier: &str) -> i32 {
     let built = core::on_big_stack(built_operands);
     acc.comparisons += built.0;
     report.violations(built.1);
+    let ladder = core::on_big_stack(depth_ladder);
+    acc.comparisons += ladder.0;
+    report.violations(ladder.1);
     samples.push(|| json!({"pair": [ps[15], ps[24]], "program": format!("({} == {}, ...)", ps[15], ps[24])}));
     samples.push(|| json!({"pair": [ps[n - 1], ps[n - 5]]}));
     samples.push(|| json!({"identity_case": "c := mut 1; d := mut 1; (c == d, c != d, *c == *d)"}));
@@ -443,6 +493,7 @@ pub fn run(tier: &str) -> i32 {
         "pairs": n * n,
         "pairs_with_equal_content": equal_pairs,
         "built_operand_comparisons (container literals with run-time components as arm values and operands x scrutinees)": built.0,
+        "depth_ladder_comparisons (4 container kinds x depth 1..=40 x literal / run-time core x == != match)": ladder.0,
         "distinct_outcomes": outcomes.len(),
         "samples": samples.items,
         "exhaustive": true,
